@@ -755,6 +755,10 @@ def _int(interp, args, kwargs):
     if not args:
         return 0
     v = args[0]
+    if type(v).__module__ == "pyvc.tokstr":
+        v = v.simplify() if hasattr(v, "simplify") else v
+        if type(v).__name__ != "NumText":
+            raise Unsupported("int() of a token string that is not a single number text: %r" % (v,))
     if type(v).__name__ == "NumText":
         if v.cls != "int":
             raise PyExc(ValueError, ("invalid literal for int() with base 10: <text of a float>",))
@@ -789,7 +793,7 @@ def _str(interp, args, kwargs):
         return NumText(v, "int" if is_int_type(v.ty) else "pyrepr", v)
     if type(v) is Sym and v.ty is bool:
         return "True" if interp.truth(v) else "False"
-    if type(v).__name__ == "NumText":
+    if type(v).__name__ == "NumText" or type(v).__module__ == "pyvc.tokstr":
         return v
     if type(v) is SObj:
         for name in ("__str__", "__repr__"):
@@ -1401,8 +1405,17 @@ class ArrStr:
         self.shape = shape
 
 
+def _re_sub(interp, args, kwargs):
+    from . import tokstr
+
+    return tokstr.re_sub(interp, args, kwargs)
+
+
 def build_models():
+    import re as _re
+
     M = {
+        _re.sub: _re_sub,
         builtins.isinstance: _isinstance,
         builtins.type: _type,
         builtins.len: _len,
